@@ -93,6 +93,12 @@ fn lib_source(g: &mut Rng, session: bool) -> (String, Vec<String>) {
         ("tostr", "\"v=\" + lib.arr".into()),
         ("cmp", "lib.arr == [lib.arr[0], lib.arr[1], 1]".into()),
         ("hidden", "lib.secret + 1".into()),
+        // objects of mixed field visibility, combined by later requests through shared handles (what `+` derives from
+        // its operands - field order, visibility, asserts - must not depend on what earlier requests asked of them)
+        ("visa", "{ a: 1, h:: 2, v::: 3, n: { x:: 1, y: lib.shallow } }".into()),
+        ("visb", "{ a::: 10, h::: 20, v:: 30, extra: [lib.shallow] }".into()),
+        ("visc", "{ a+: 1, h+:: 5, v+::: 6, n+: { z::: 2 } }".into()),
+        ("visd", "{ [k]:: k + \"!\" for k in [\"a\", \"zz\", \"extra\"] }".into()),
         // a nested evaluation whose failure the embedder swallows, while this field (and its object) is in flight
         ("trynat", "std.native(\"tryOther\")(lib.shallow + 6)".into()),
         ("tryobj", "{ assert std.native(\"tryOther\")(lib.shallow == 1) : \"tryobj\", q: lib.nested.inner.other }".into()),
@@ -120,7 +126,10 @@ fn client_source(g: &mut Rng, names: &[String], via: &str) -> String {
         _ => "(import \"lib.libsonnet\")",
     };
     let f = |g: &mut Rng| g.pick(names).clone();
-    match g.below(27) {
+    // object-typed library fields (those present in this library)
+    let objs: Vec<String> = names.iter().filter(|n| matches!(n.as_str(), "visa" | "visb" | "visc" | "visd" | "guarded" | "checked" | "nested" | "comp" | "viasuper" | "halfbad" | "outer")).cloned().collect();
+    let fo = |g: &mut Rng| if objs.is_empty() { "nested".to_string() } else { g.pick(&objs).clone() };
+    match g.below(32) {
         0 => format!("{l}.{}", f(g)),
         1 => format!("local l = {l}; [l.{}, l.{}]", f(g), f(g)),
         2 => format!("local l = {l}; {{ a: l.{}, b: l.{} }}", f(g), f(g)),
@@ -149,6 +158,11 @@ fn client_source(g: &mut Rng, names: &[String], via: &str) -> String {
         22 => "{ x: -5, shallow: 7, y: 3 }".to_string(),
         23 => format!("{l}.guarded"),
         24 => format!("local l = {l}; function(patch) [l.guarded + patch, l.checked + patch]"),
+        26 => format!("local l = {l}; l.{} + l.{}", fo(g), fo(g)),
+        27 => format!("local l = {l}; [std.objectFields(l.{}), std.objectFieldsAll(l.{}), std.length(l.{})]", fo(g), fo(g), fo(g)),
+        28 => format!("local l = {l}; local s = l.{} + l.{}; [std.objectFieldsAll(s), std.objectFields(s + l.{}), s]", fo(g), fo(g), fo(g)),
+        29 => format!("local l = {l}; [l.{a} + l.{b} == l.{b} + l.{a}, std.objectHasAll(l.{a} + l.{b}, \"h\"), std.objectHas(l.{b} + l.{a}, \"v\")]", a = fo(g), b = fo(g)),
+        30 => format!("local l = {l}; {{ r: l.{} }} + {{ r+: l.{} }}", fo(g), fo(g)),
         25 => format!("local l = {l}; [std.native(\"tryOther\")(l.{}), l.{}]", f(g), f(g)),
         _ => format!("{l}"),
     }
@@ -218,6 +232,16 @@ pub fn gen_history_mode(seed: u64, with_faults: bool, session: bool) -> History 
         files.insert("j/util.libsonnet".into(), b"\"J\"".to_vec());
         files.insert("d/main.jsonnet".into(), b"{ who: \"d\", x: import \"extra.libsonnet\", b: importbin \"extra.libsonnet\" }".to_vec());
         files.insert("d/extra.libsonnet".into(), b"\"D\\u00e9\"".to_vec());
+        // data imports of one file that is not valid UTF-8, as text and as bytes, by different requests in either order
+        files.insert("e/blob.bin".into(), vec![1, 0, 0xff, 0xfe, b'a', 0xc3, 0x28, b'\n']);
+        files.insert("e/main.jsonnet".into(), b"{ who: \"e\", s: importstr \"blob.bin\", n: std.length(importstr \"blob.bin\") }".to_vec());
+        files.insert("e/bin.jsonnet".into(), b"{ who: \"e-bin\", b: importbin \"blob.bin\" }".to_vec());
+        files.insert("e/both.jsonnet".into(), b"{ who: \"e-both\", b: importbin \"blob.bin\", s: importstr \"blob.bin\", t: importstr \"../d/extra.libsonnet\" }".to_vec());
+        for s in ["e/main.jsonnet", "e/bin.jsonnet", "e/both.jsonnet"] {
+            if g.chance(1, 2) {
+                srcs.push(s.to_string());
+            }
+        }
         for s in ["a/main.jsonnet", "b/main.jsonnet", "c/main.jsonnet", "d/main.jsonnet"] {
             if g.chance(2, 3) {
                 srcs.push(s.to_string());
